@@ -33,6 +33,8 @@ type creply struct {
 	pos      int // position inside the record
 	id       string
 	kind     string // result error both neither malformed
+	hasRes   bool   // the member has a "result" (whatever else is wrong with it)
+	res      string
 	payload  string // the result text, or the error object text
 	op, i, n int
 	settled  int // first quiescent point after it was sent (-1)
@@ -369,7 +371,16 @@ func ClientCheck(sc sim.CScenario, h *sim.CHistory) []Problem {
 						consumed[fmt.Sprintf("%d/%d", r.recIdx, r.pos)] += name + ";"
 					}
 				case "both", "neither", "malformed":
-					matched, silentMatch = true, true // the property is silent about what such a member completes with
+					// The property is silent about what such a member completes its
+					// call with - an error of the client's making, or one of the
+					// payloads it carries - but a success must still be a result
+					// "the peer sent": one the member bears.
+					// (A member without any result completes its call with an empty
+					// result in the tree as it is: lenient, and nothing fabricated.)
+					if c.class == "result" && !(r.hasRes && jsonEqual(r.res, c.data)) && !(!r.hasRes && (c.data == "" || c.data == "null")) {
+						break
+					}
+					matched, silentMatch = true, true
 				}
 			}
 			if !matched && c.class == "rpcerror" && stopped && c.code != 0 && len(mine) == 0 {
@@ -499,11 +510,20 @@ func ClientCheck(sc sim.CScenario, h *sim.CHistory) []Problem {
 		}
 	}
 	for k, r := range noteReqs {
+		if sc.Cfg.OnlyHandler == "callback" {
+			if notes[k] > 0 {
+				add("C04/server-notification-delivery", "server notification %s reached an OnNotify handler the client does not have", r.example)
+			}
+			continue
+		}
 		if notes[k] > r.n || notes[k] < r.must {
 			add("C04/server-notification-delivery", "server notification %s was sent %d times (%d of them certainly before the client stopped) and handed to OnNotify %d times", r.example, r.n, r.must, notes[k])
 		}
 	}
 	for k, r := range callReqs {
+		if sc.Cfg.OnlyHandler == "notify" {
+			continue // no OnCallback: server calls are dropped
+		}
 		if cbEnter[k] > r.n || cbEnter[k] < r.must {
 			add("C04/server-callback-delivery", "server call %s was sent %d times (%d of them certainly before the client stopped) and handed to OnCallback %d times", r.example, r.n, r.must, cbEnter[k])
 		}
@@ -680,6 +700,7 @@ func parseCReply(it []byte) *creply {
 	if hasMethod || r.id == "" || r.id == "null" {
 		return nil
 	}
+	r.hasRes, r.res = hasRes, string(res)
 	switch {
 	case bad:
 		r.kind = "malformed"
